@@ -6,6 +6,9 @@ import MakoModel.Props.C13
 #print axioms MakoModel.C13.call_appends_suffix
 #print axioms MakoModel.C13.abandoned_buffer_content_is_dropped
 #print axioms MakoModel.C13.caller_and_loop_restored
+#print axioms MakoModel.C13.handled_equals_spec_partial
+#print axioms MakoModel.C13.handled_equals_spec_render_partial
+#print axioms MakoModel.C13.handled_equals_spec_counterexample
 #print axioms MakoModel.C13.rerender_same
 #print axioms MakoModel.C13.output_kept_after_failed_render
 #print axioms MakoModel.C13.unhandled_propagates_unchanged
